@@ -146,11 +146,18 @@ pub fn build(cfg: &ArcCfg, seed: u64, path: &Path) -> Result<Built, String> {
         let l1 = sector * 3 / 5 + rng.usize(40);
         let l3 = 2 * sector + sector / 5 + rng.usize(40);
         let l9 = 8 * sector + sector / 7 + rng.usize(40);
-        specs.push(("single.txt".into(), "single", gen_content(&mut rng, "text", l1), cfg.method, cfg.enc));
+        // in every other unsigned configuration the user files carry names that merely *look* like special files
+        // (a leading '(' / a trailing ')'): they are ordinary files to every verifier
+        let paren = cfg.signed == 0 && (cfg.shift % 2 == 1 || cfg.version == 2);
+        specs.push((if paren { "(old) notes.txt" } else { "single.txt" }.into(), "single", gen_content(&mut rng, "text", l1), cfg.method, cfg.enc));
         if cfg.signed == 1 {
             specs.push(("(signature)".into(), "signature", vec![0u8; 72], 0, false));
         }
-        specs.push(("three.dat".into(), "3-sector", gen_content(&mut rng, "text", l3), cfg.method, cfg.enc));
+        specs.push((if paren { "maps\\arena (copy)" } else { "three.dat" }.into(), "3-sector", gen_content(&mut rng, "text", l3), cfg.method, cfg.enc));
+        if cfg.attr != 0 {
+            // a file without content: its attributes (CRC32 of nothing, MD5 of nothing) must verify like any other
+            specs.push(("empty.bin".into(), "empty", vec![], cfg.method, false));
+        }
         // the 9-sector file ends in incompressible bytes: with a codec selected it holds compressed and raw sectors
         specs.push(("nine.bin".into(), "9-sector", mixed_content(&mut rng, l9, 35), cfg.method, cfg.enc));
     }
@@ -236,6 +243,9 @@ pub fn build(cfg: &ArcCfg, seed: u64, path: &Path) -> Result<Built, String> {
     let data_end = ext.unwrap_or(hash_pos).min(hash_pos);
     let mut cur = ao + header_size;
     for &i in &order {
+        if files[i].stored == 0 && files[i].shape == "empty" {
+            continue; // occupies no bytes: wherever the block table places it
+        }
         if files[i].pos != cur {
             return Err(format!("region map: block of {} starts at {} but the previous block ended at {cur}", files[i].name, files[i].pos));
         }
@@ -247,7 +257,7 @@ pub fn build(cfg: &ArcCfg, seed: u64, path: &Path) -> Result<Built, String> {
     // ---- regions
     let mut regions: Vec<Region> = Vec::new();
     for (i, f) in files.iter().enumerate() {
-        if f.shape == "special" {
+        if f.shape == "special" || f.shape == "empty" {
             continue;
         }
         let single = f.flags & FLAG_SINGLE_UNIT != 0;
@@ -1056,6 +1066,33 @@ fn signed_case(c: &mut Case, sp: &Spec, b: &Built, stride: usize, phase: usize) 
             };
             c.violate(format!("intact-fails|weak-signature|verify_signature|{placement}|{method}|{enc}{}", off_sfx(&sp.cfg)), format!("an archive signed with generate_weak_signature does not verify: verify_signature() = {s}"), json!({"archive_len": b.bytes.len(), "signature_pos": b.files.iter().find(|f| f.shape == "signature").map(|f| f.pos)}));
             return;
+        }
+    }
+    // the same signed archive inside a longer file (padding to a block multiple / foreign data behind the archive): the archive,
+    // whose extent the header declares, is unmodified and must verify
+    for (tag, extra) in [("short-tail", 100usize), ("padded-to-4096", (4096 - b.bytes.len() % 4096) % 4096 + 4096)] {
+        let tp = b.path.with_extension(format!("{tag}.mpq"));
+        let mut longer = b.bytes.clone();
+        longer.extend((0..extra).map(|i| (i * 29 % 253) as u8 | 1));
+        if std::fs::write(&tp, &longer).is_err() {
+            continue;
+        }
+        c.count("baseline_verifications", 1);
+        c.count("signed_archives_followed_by_foreign_bytes", 1);
+        let r = trap(|| Archive::open(&tp).and_then(|mut a| a.verify_signature()));
+        let _ = std::fs::remove_file(&tp);
+        match r {
+            Ok(Ok(SignatureStatus::WeakValid)) => {}
+            other => {
+                let s = match other {
+                    Ok(Ok(s)) => format!("{s:?}"),
+                    Ok(Err(e)) => format!("Err({e})"),
+                    Err(p) => p.sig(),
+                };
+                c.violate(format!("intact-fails|weak-signature|verify_signature|{placement}|{method}|{enc}|file-longer-than-archive{}", off_sfx(&sp.cfg)),
+                          format!("a signed archive followed by {extra} foreign bytes ({tag}) does not verify although the archive itself is unmodified: verify_signature() = {s}"), json!({"archive_len": b.bytes.len(), "extra": extra}));
+                return;
+            }
         }
     }
     let Some(r) = b.regions.iter().find(|r| r.kind == sp.region) else {
